@@ -676,3 +676,220 @@ def _vec_remove(eng, st, args, dty, callee, m):
         new.append(merge(z3.ULT(bv(j, 64), i), v.elems[j], nxt))
     eng.store(st, r, VSeq(new, simp(v.len - 1)))
     return removed
+
+
+# ------------------------------------------------------------------------------------- more iterator consumers / Vec operations
+@summary(r"^<.* as Iterator>::(find|find_map)::<.*>$", "Iterator::find / find_map (real closure; first match)")
+def _find(eng, st, args, dty, callee, m):
+    items = drain(eng, st, _it(eng, st, args[0]))
+    found = z3.BoolVal(False)
+    val = None
+    for c, v in reversed(items):
+        pass
+    acc_found = z3.BoolVal(False)
+    acc_val = None
+    for c, v in reversed(items):
+        if m.group(1) == "find":
+            ref = eng.alloc(st, v, "T")
+            r = _call(eng, st, args[1], [ref], c)
+            if r is None:
+                continue
+            hit = simp(z3.And(c, r))
+            out = v
+        else:
+            r = _call(eng, st, args[1], [v], c)
+            if r is None or 1 not in r.pay:
+                continue
+            hit = simp(z3.And(c, is_variant(r, 1)))
+            out = r.pay[1][0]
+        acc_val = out if acc_val is None else merge(hit, out, acc_val)
+        acc_found = simp(z3.Or(hit, acc_found))
+    if acc_val is None:
+        return none()
+    return option(acc_found, acc_val)
+
+
+@summary(r"^<.* as Iterator>::fold::<.*>$", "Iterator::fold (real closure)")
+def _fold(eng, st, args, dty, callee, m):
+    acc = args[1]
+    for c, v in drain(eng, st, _it(eng, st, args[0])):
+        r = _call(eng, st, args[2], [acc, v], c)
+        if r is None:
+            continue
+        acc = merge(c, r, acc)
+    return acc
+
+
+@summary(r"^<.* as Iterator>::for_each::<.*>$", "Iterator::for_each (real closure)")
+def _for_each(eng, st, args, dty, callee, m):
+    for c, v in drain(eng, st, _it(eng, st, args[0])):
+        _call(eng, st, args[1], [v], c)
+    return UNIT
+
+
+@summary(r"^<.* as Iterator>::(max|min)$", "Iterator::max / min over unsigned integers")
+def _iter_minmax(eng, st, args, dty, callee, m):
+    items = drain(eng, st, _it(eng, st, args[0]))
+    best = None
+    have = z3.BoolVal(False)
+    for c, v in items:
+        v = deref(eng, st, v) if isinstance(v, VRef) else v
+        if not z3.is_bv(v):
+            raise SymError("Iterator::max/min over non-integer items")
+        if best is None:
+            best = v
+            have = c
+            continue
+        better = z3.UGE(v, best) if m.group(1) == "max" else z3.ULT(v, best)
+        best = z3.If(z3.And(c, z3.Or(z3.Not(have), better)), v, best)
+        have = simp(z3.Or(have, c))
+    if best is None:
+        return none()
+    return option(have, best)
+
+
+@summary(r"^<.* as Iterator>::(max_by|min_by)::<.*>$", "Iterator::max_by / min_by (real comparator closure)")
+def _iter_minmax_by(eng, st, args, dty, callee, m):
+    items = drain(eng, st, _it(eng, st, args[0]))
+    best = None
+    have = z3.BoolVal(False)
+    for c, v in items:
+        if best is None:
+            best, have = v, c
+            continue
+        ra = eng.alloc(st, best, "T")
+        rb = eng.alloc(st, v, "T")
+        s2, o = eng.call_closure(st, args[1], [ra, rb])
+        _adopt(st, s2)
+        # max_by returns the last maximum, min_by the first minimum
+        take = simp(o.idx != bv(2, 8)) if m.group(1) == "max_by" else simp(o.idx == bv(2, 8))
+        best = merge(simp(z3.And(c, z3.Or(z3.Not(have), take))), v, best)
+        have = simp(z3.Or(have, c))
+    if best is None:
+        return none()
+    return option(have, best)
+
+
+@summary(r"^<.* as Iterator>::(last|nth)$", "Iterator::last / nth")
+def _iter_last(eng, st, args, dty, callee, m):
+    items = drain(eng, st, _it(eng, st, args[0]))
+    if m.group(1) == "last":
+        val, have = None, z3.BoolVal(False)
+        for c, v in items:
+            val = v if val is None else merge(c, v, val)
+            have = simp(z3.Or(have, c))
+        return none() if val is None else option(have, val)
+    n = args[1]
+    cnt = bv(0, 64)
+    val, have = None, z3.BoolVal(False)
+    for c, v in reversed(items):
+        pass
+    pos = []
+    for c, v in items:
+        pos.append(cnt)
+        cnt = simp(cnt + z3.If(c, bv(1, 64), bv(0, 64)))
+    for (c, v), p in zip(reversed(items), reversed(pos)):
+        hit = simp(z3.And(c, p == n))
+        val = v if val is None else merge(hit, v, val)
+        have = simp(z3.Or(have, hit))
+    return none() if val is None else option(have, val)
+
+
+@summary(r"^<.* as Iterator>::(chain|take_while|skip_while)::<.*>$|^<.* as Iterator>::chain$", "Iterator::chain / take_while / skip_while")
+def _chain_etc(eng, st, args, dty, callee, m):
+    it = _it(eng, st, args[0])
+    k = "chain" if "chain" in callee.split("::")[-1] or callee.endswith("chain") else m.group(1)
+    if k == "chain":
+        other = args[1]
+        if isinstance(other, VRef):
+            other = eng.load(st, other)
+        if not isinstance(other, VIter):
+            raise SymError("chain with a non-iterator")
+        items = tuple(drain(eng, st, it)) + tuple(drain(eng, st, other))
+        return VIter("condlist", items=items, pos=bv(0, 64))
+    items = drain(eng, st, it)
+    out = []
+    going = z3.BoolVal(True)  # take_while: still taking; skip_while: still skipping
+    for c, v in items:
+        ref = eng.alloc(st, v, "T")
+        r = _call(eng, st, args[1], [ref], c)
+        if r is None:
+            continue
+        if k == "take_while":
+            going = simp(z3.And(going, z3.Implies(c, r)))
+            out.append((simp(z3.And(c, going)), v))
+        else:
+            going = simp(z3.And(going, z3.Or(z3.Not(c), r)))
+            out.append((simp(z3.And(c, z3.Not(going))), v))
+    return VIter("condlist", items=tuple(out), pos=bv(0, 64))
+
+
+@summary(r"^Vec::<.*>::(pop|insert|swap_remove|extend_from_slice)$", "Vec::pop / insert / swap_remove / extend_from_slice")
+def _vec_more(eng, st, args, dty, callee, m):
+    k = m.group(1)
+    v, r = _seq_of(eng, st, args[0])
+    n = len(v.elems)
+    if k == "pop":
+        if n == 0:
+            return none()
+        idx = simp(v.len - 1)
+        last = eng.read_path(v, (("si", idx),)) if as_int(idx) is None else v.elems[min(as_int(idx), n - 1)]
+        nonempty = simp(v.len != 0)
+        eng.store(st, r, VSeq(v.elems, simp(z3.If(nonempty, v.len - 1, v.len))))
+        return option(nonempty, last)
+    if k == "extend_from_slice":
+        src, _ = _seq_of(eng, st, args[1])
+        sl = as_int(_len_of(src))
+        if sl is None or as_int(v.len) is None:
+            raise SymError("extend_from_slice with symbolic lengths")
+        base = list(v.elems[: as_int(v.len)])
+        eng.store(st, r, VSeq(base + list(src.elems[:sl]), bv(len(base) + sl, 64)))
+        return UNIT
+    if k == "insert":
+        i, x = args[1], args[2]
+        eng.oblige(st, "panic:Vec::insert index out of bounds", z3.UGT(i, v.len))
+        elems = list(v.elems) + ([x] if as_int(v.len) is not None and as_int(v.len) == n else ([x] if n < getattr(eng, "seq_cap", 12) else []))
+        new = []
+        for j in range(len(elems)):
+            prev = v.elems[j - 1] if 0 < j <= n else (v.elems[0] if n else x)
+            cur = v.elems[j] if j < n else x
+            new.append(merge(z3.ULT(bv(j, 64), i), cur, merge(bv(j, 64) == i, x, prev)))
+        eng.store(st, r, VSeq(new, simp(v.len + 1)))
+        return UNIT
+    if k == "swap_remove":
+        i = args[1]
+        eng.oblige(st, "panic:Vec::swap_remove index out of bounds", z3.UGE(i, v.len))
+        if n == 0:
+            return None
+        lastidx = simp(v.len - 1)
+        removed = eng.read_path(v, (("si", i),)) if as_int(i) is None else v.elems[min(as_int(i), n - 1)]
+        last = eng.read_path(v, (("si", lastidx),)) if as_int(lastidx) is None else v.elems[min(as_int(lastidx), n - 1)]
+        new = [merge(bv(j, 64) == i, last, e) for j, e in enumerate(v.elems)]
+        eng.store(st, r, VSeq(new, lastidx))
+        return removed
+    raise SymError("Vec::" + k)
+
+
+@summary(r"^(std|core|alloc)::slice::<impl \[.*\]>::(sort_by_key|sort_unstable_by_key|sort_by_cached_key)::<.*>$", "sort_by_key: stable network, key = the real closure (unsigned / Duration / f64-free keys)")
+def _sort_by_key(eng, st, args, dty, callee, m):
+    f = args[1]
+
+    def greater(a, b):
+        from summaries import time_lt
+
+        ra = eng.alloc(st, a, "T")
+        rb = eng.alloc(st, b, "T")
+        s2, ka = eng.call_closure(st, f, [ra])
+        _adopt(st, s2)
+        s3, kb = eng.call_closure(st, f, [rb])
+        _adopt(st, s3)
+        if z3.is_bv(ka):
+            return simp(z3.UGT(ka, kb))
+        if isinstance(ka, VStruct) and ka.ty in ("Duration", "Instant", "SystemTime"):
+            return simp(time_lt(kb, ka))
+        if isinstance(ka, VArr):
+            return simp(z3.UGT(key_bv(ka), key_bv(kb)))
+        raise SymError("sort_by_key with an unsupported key type")
+
+    _sort_seq(eng, st, args[0], greater)
+    return UNIT
